@@ -158,6 +158,8 @@ pub struct Setting {
     pub hp: Option<(f32, bool)>,
     pub hr_offsets: Option<bool>,
     pub lazer: Option<bool>,
+    /// `passed_objects(k)` carried by the Difficulty itself (e.g. handed to a gradual constructor)
+    pub passed: Option<u32>,
 }
 
 impl Setting {
@@ -171,6 +173,7 @@ impl Setting {
             hp: None,
             hr_offsets: None,
             lazer: None,
+            passed: None,
         }
     }
 
@@ -182,7 +185,7 @@ impl Setting {
         Self::mods(ModSpec::Bits(b))
     }
 
-    /// Build the `Difficulty` (never sets `passed_objects`).
+    /// Build the `Difficulty` (`passed_objects` only if the setting carries it).
     pub fn difficulty(&self, mode: GameMode) -> Difficulty {
         let mut d = Difficulty::new().mods(self.mods.build(mode));
         if let Some(r) = self.rate {
@@ -205,6 +208,9 @@ impl Setting {
         }
         if let Some(b) = self.lazer {
             d = d.lazer(b);
+        }
+        if let Some(k) = self.passed {
+            d = d.passed_objects(k);
         }
         d
     }
@@ -305,6 +311,7 @@ pub fn standard_settings(dst: u8, rich: bool) -> Vec<Setting> {
                     hp: o[3],
                     hr_offsets: None,
                     lazer: None,
+                    passed: None,
                 });
             }
         }
